@@ -7,6 +7,16 @@ ALL = ["C%02d" % i for i in range(1, 21)]
 
 # id -> (category, technique, text, note, design_ref, engine)
 CHECKS = {
+ "C01": ("model_checking",
+         "bounded-exhaustive enumeration of write-fragmentation scripts (short accept / would-block / error at every offset) over the real output buffer and write_to_stream",
+         "Programs of up to 3 real frames (8 B to 9 KB) queued before chosen write calls, written through the real write_to_stream into a scripted transport under every placement of up to 2 (thorough: 3) cuts; after every call the transport content must be a prefix of header+frames, accepted+pending must equal queued, and a call may return with data pending only after a would-block.",
+         "This part covers the single-threaded write path only; interleaving of several handles/threads and the re-arming of socket interest are decided by the simx scenarios when present.",
+         "DESIGN.md §6 C01", "seqx"),
+ "C02": ("exploration",
+         "complete cartesian enumeration of publishes through the real Channel/ChannelHandle with the hand-over queue tapped, frames split by an independent envelope parser",
+         "frame_max x 12 (thorough 18) body lengths around multiples of the payload limit x mandatory x immediate x name classes, all 2^14 property subsets, boundary property values and pairs of consecutive publishes; checks method fields, header size and properties, body concatenation, per-frame size limit, absence of empty/extra body frames and contiguity.",
+         "Observed at the queue to the I/O thread, i.e. before the write path (C01 covers that).",
+         "DESIGN.md §6 C02", "seqx"),
  "C06": ("model_checking",
          "bounded-exhaustive enumeration of read scripts (cut placements x short-read/would-block) over real AMQP byte streams through the real FrameBuffer, against an envelope-level reference",
          "Every placement of up to 2 (thorough: 3) cuts, each a short read or a would-block, over every byte offset of streams up to 300 bytes and over a boundary menu for streams up to 9 KB (frame boundaries, size-field offsets, 4096-byte quantum +-2), plus one-byte-per-read, truncation+EOF at every offset and handler failure at each frame; the frames handed on, their timing relative to the read that completed them, byte counts and the final error are compared with a reference built from the stream's construction.",
@@ -17,6 +27,11 @@ CHECKS = {
          "Complete reachable state graph for channel_max 1..3 (thorough: 4) under open(Some(i)) for every i in 0..=max+1, open(None), close, close of a non-open id, failing slot construction and drain; every transition is judged against the statement and the open set compared with a reference set. The u16 boundary (channel_max 65535, counter at 65533..65535, all ids open) is driven by real calls in child processes with a wall limit so that a spinning allocator is a verdict.",
          "ChannelSlots is driven through a probe, not through Connection::open_channel; the request/reply hand-over around it is exercised by the simx scenarios. State space complete only for channel_max <= 4.",
          "DESIGN.md §6 C10", "seqx"),
+ "C12": ("exploration",
+         "complete table of public operations x boolean option combinations x value classes on a real Channel, compared byte-for-byte with hand-written expected methods and with a spec-derived independent flag/layout decoder",
+         "84 operation entries (Channel, Queue, Exchange, Consumer, Delivery, Get, Connection open_channel/close), every combination of their boolean options, 4 string classes (different per argument), 3 table classes, numeric extremes: the one method frame handed over must equal the expected method, sit on the right channel, and its class/method ids, length and packed flag octet must match an independent AMQP 0-9-1 layout; cross-channel ack/nack/reject through Delivery, Get and Consumer must panic and send nothing; returned values of sync calls equal the preloaded replies.",
+         "String/table encodings are compared against amq-protocol's generator (same generator the library uses); flags, ids and lengths are checked independently.",
+         "DESIGN.md §6 C12", "seqx"),
  "C14": ("model_checking",
          "bounded-exhaustive enumeration of every confirmation history on the real ConfirmSmoother against a reference model",
          "Every valid confirmation history for up to 6 (thorough: 7) tags, five start tags incl. the u64 boundary, every early-drop pattern up to 4 tags, plus every arbitrary (duplicate/stale) sequence to depth 5 (6) for the safety half, each executed on the real public API and compared call by call with a first-cover reference model. Exhaustive inside those bounds; nothing is sampled.",
